@@ -309,11 +309,15 @@ func scalarReflectFromGo(schema *schema_j5pb.Field, value interface{}) (protoref
 		switch st.Float.Format {
 
 		case schema_j5pb.FloatField_FORMAT_FLOAT32:
-			if !math.IsInf(val, 0) && (val > math.MaxFloat32 || val < -math.MaxFloat32) {
+			// out of range means it rounds to an infinity it was not: the shortest
+			// decimal spelling of the largest float32 is itself a little above
+			// MaxFloat32 as a float64, and must be accepted
+			val32 := float32(val)
+			if math.IsInf(float64(val32), 0) && !math.IsInf(val, 0) {
 				return pv, fmt.Errorf("float64 value %v is out of range for float32", val)
 			}
 
-			return protoreflect.ValueOfFloat32(float32(val)), nil
+			return protoreflect.ValueOfFloat32(val32), nil
 
 		case schema_j5pb.FloatField_FORMAT_FLOAT64:
 			return protoreflect.ValueOfFloat64(val), nil
